@@ -36,7 +36,7 @@ var targets = []string{
 	"TraefikOidc.VerifyJWTSignatureAndClaims", "TraefikOidc.isUserAuthenticated",
 	"TraefikOidc.performPreVerificationChecks", "TraefikOidc.cacheVerifiedToken", "TraefikOidc.VerifyToken", "TraefikOidc.RevokeToken",
 	"Cache.removeItem", "Cache.evictOldest", "Cache.Set", "Cache.Get", "Cache.Delete", "Cache.Cleanup",
-	"TokenCache.Set", "TokenCache.Get", "TokenCache.Delete",
+	"TokenCache.Set", "TokenCache.Get", "TokenCache.Delete", "TokenCache.Cleanup",
 	"discoverProviderMetadata",
 	"MetadataCache.isCacheValid", "MetadataCache.Cleanup", "MetadataCache.GetMetadata",
 	"JWKCache.Cleanup", "JWKCache.GetJWKS",
